@@ -238,7 +238,7 @@ func (g *genState) req(key int, park int) {
 
 func (g *genState) parkBits() int {
 	if rapid.IntRange(0, 99).Draw(g.t, "parkP") < g.p.parkPct {
-		return rapid.IntRange(1, 3).Draw(g.t, "parkBits")
+		return rapid.SampledFrom([]int{1, 2, 3, 1, 2, 3, 4, 4, 5, 6, 7}).Draw(g.t, "parkBits")
 	}
 	return 0
 }
@@ -276,6 +276,25 @@ func (g *genState) macro(name string) {
 			g.add(Op{K: "complete", Pick: -1, Out: g.outcome()})
 		}
 		for i := 0; i < nw; i++ {
+			g.add(Op{K: "release", Pick: 0})
+		}
+		g.add(Op{K: "complete", Pick: -1, Out: g.outcome()})
+	case "enterExpiry": // the entry expires between a request's lookup of it and its Get
+		T := rapid.SampledFrom([]int{1, 2, 3}).Draw(t, "T")
+		g.req(k, 0)
+		g.add(Op{K: "complete", Pick: -1, Out: &Outcome{Kind: "cacheable", T: T}})
+		g.lastT = T
+		g.add(Op{K: "advance", Ms: T*1000 - rapid.SampledFrom([]int{1, 500, 900}).Draw(t, "before")})
+		np := rapid.IntRange(1, 2).Draw(t, "np")
+		for i := 0; i < np; i++ {
+			g.req(k, 4) // looked the entry up while it was fresh
+		}
+		g.add(Op{K: "advance", Ms: 1000 + rapid.SampledFrom([]int{1, 500, 1500}).Draw(t, "after")})
+		g.req(k, 0) // finds it expired: the fetcher
+		if rapid.Bool().Draw(t, "completeFirst") {
+			g.add(Op{K: "complete", Pick: -1, Out: g.outcome()})
+		}
+		for i := 0; i < np; i++ {
 			g.add(Op{K: "release", Pick: 0})
 		}
 		g.add(Op{K: "complete", Pick: -1, Out: g.outcome()})
@@ -559,6 +578,7 @@ func stdClasses(s *modelStats, tr *trace, out *vstat.Outcome) {
 	add("wild", s.WildGens)
 	add("waiter_age_checked", s.WaiterAgeChecked)
 	add("hfp_marker_reloaded_from_store", s.MarkerReloads)
+	add("parked_between_lookup_and_get", s.ParkedAtEnter)
 }
 
 func btoi(b bool) int {
@@ -597,7 +617,7 @@ func TestC01(t *testing.T) {
 		stores: []string{""}, cacheSizes: []int{1000, 1000, 100, 1001, 2000}, hfps: []int{0, 2}, proxyTimeouts: []int{0},
 		lifetimes: []int{1, 2, 3, 5}, outcomes: []string{"cacheable", "cacheable", "cacheable", "cacheable", "uncacheable", "transport_error"},
 		parkPct: 30, w: [6]int{40, 25, 15, 12, 2, 0}, minOps: 4, maxOps: 40,
-		macros: []string{"burst", "wokenExpiry", "registeredPark", "epochs"}, macroPct: 12,
+		macros: []string{"burst", "wokenExpiry", "registeredPark", "epochs", "enterExpiry"}, macroPct: 14,
 		bodyLens: []int{0, 0, 40, 3000}, aes: []string{"", "gzip", "br", "gzip, br"}}
 	vstat.Run(t, "C01", "sim", genScenario(p), execSim(t, "C01", func(s *modelStats, tr *trace) bool {
 		return s.Waiters >= 1 && (s.ParkedWokenAcrossExpiry > 0 || s.Epochs >= 2 || s.ParkedRegisteredAcrossEnd > 0)
